@@ -283,6 +283,12 @@ def r3(rep, prog):
                 tr = trace_through(body, op_local(t["args"][0]))
                 if any(s[0] == "call" and len(s) > 2 and s[2] == jb for s in tr):
                     layers.add(("?", b))
+                elif tr and tr[-1][0] == "multi":
+                    # a value with several definitions (`match join() { Ok(r) => r, Err(p) => Err(..) }` written into
+                    # this function): set-valued provenance instead of the single chain
+                    lv = provenance(body, op_local(t["args"][0]), extra_transparent=tuple(prog.names(r"Result::<T, E>::map_err$")))
+                    if any(x[0] == "call" and x[1] in JOIN for x in lv):
+                        layers.add(("?", b))
         eb = body.error_blocks()
         for b in body.normal_blocks():
             sw = body.term(b)
